@@ -187,6 +187,14 @@ theorem loaders_agree (env : Env A) (text : Str) (l : Loader) :
 environment: the angle `7` is wrapped to `3` -/
 example : parseLine Ex.env [] [] "VERTEX_SE2 ii \t aaa  a aaaaaaaa\n".toList = .ok (.vertex ⟨1, ⟨.se2, [2, 0, 3]⟩⟩) := by decide
 
+/-- the hypotheses of `line_faithful_EDGE_SE2` are satisfiable: an `EDGE_SE2` line with ids `0 1`, measurement `(2, 0, 5)`
+(angle wrapped to `1`) and the six numbers of the upper triangle of `[[2,1,0],[1,2,0],[0,0,3]]` -/
+example : parseLine Ex.env [] [] "EDGE_SE2 i ii aaa a aaaaaa aaa aa a aaa a aaaa\n".toList
+    = .ok (.edge ⟨[0, 1], [[2, 1, 0], [1, 2, 0], [0, 0, 3]], .odometry ⟨.se2, [2, 0, 1]⟩⟩) :=
+  line_faithful_EDGE_SE2 Ex.env [] [] _ "i".toList "ii".toList
+    (["aaa", "a", "aaaaaa", "aaa", "aa", "a", "aaa", "a", "aaaa"].map String.toList) 0 1 2 0 5 [2, 1, 0, 2, 0, 3] _
+    (by decide) (by decide) (by decide) (by decide) (by decide) (by decide) rfl
+
 /-- junk and blank lines around it do not matter; one warning for the non-blank junk line -/
 example : (Graph.fromG2O Ex.env [] "# comment\n\n \t\nVERTEX_SE2 ii aaa a aaaaaaaa\r\n".toList).result
       = .ok ⟨[], [⟨1, ⟨.se2, [2, 0, 3]⟩⟩], []⟩ ∧
